@@ -4,8 +4,10 @@ Space (exhaustive, DESIGN 5 C16): synthetic image files (PNG with any IHDR size 
 SOF0/SOF2 behind 0..2 APPn segments / DQT+DHT / decoy SOF inside an APPn / fill bytes, EMF of exact byte
 lengths) whose total length sits around the 80-hex-digit line length (len % 40 in {39, 0, 1}) and which
 contain every byte value; suffixes .png .jpg .jpeg .emf .PNG; 1..3 (quick) / 1..6 (thorough) figures;
-fig_width / fig_height scalar or list of length 1..n+1; three alignments; placement^3; caption presence.
-Core products + radius-2 ball around anchors.
+fig_width / fig_height scalar or list of length 1..n+1; three alignments; placement^3; caption presence;
+multi-line title / subline / footnote / source (1..4 lines) x 1..4 figures x placement^3; overwrite histories over
+one path inside one process (write v1, build+encode, rewrite the same path with v2, build+encode, re-encode the
+first document). Core products + radius-2 ball around anchors.
 
 Oracle (from the property text): page k carries exactly one picture; its hex payload decodes to the bytes of
 file k; its blip keyword is the one of the file's format; \\picw/\\pich equal the size in the image header
@@ -117,6 +119,13 @@ def dim_at(v, i):
 # --------------------------------------------------------------------------- one case
 
 
+def lines_of(tag: str, m, as_arg: bool = False):
+    """The m lines of a caption component: T0..T{m-1} (a one-line component is given as a plain string)."""
+    m = int(m)
+    lines = [f"{tag}{i}" for i in range(m)]
+    return lines[0] if as_arg and m == 1 else lines
+
+
 def build(case: dict, paths: list):
     import pathlib
 
@@ -135,34 +144,142 @@ def build(case: dict, paths: list):
             fkw[name] = case[k]
     kw = {"rtf_figure": rtf.RTFFigure(figures=figures, **fkw)}
     if case.get("title"):
-        kw["rtf_title"] = rtf.RTFTitle(text="T0")
+        kw["rtf_title"] = rtf.RTFTitle(text=lines_of("T", case["title"], True))
     if case.get("subline"):
-        kw["rtf_subline"] = rtf.RTFSubline(text="S0")
+        kw["rtf_subline"] = rtf.RTFSubline(text=lines_of("S", case["subline"], True))
     if case.get("footnote"):
-        kw["rtf_footnote"] = rtf.RTFFootnote(text="F0", as_table=False)
+        kw["rtf_footnote"] = rtf.RTFFootnote(text=lines_of("F", case["footnote"], True), as_table=False)
     if case.get("source"):
-        kw["rtf_source"] = rtf.RTFSource(text="Z0", as_table=False)
+        kw["rtf_source"] = rtf.RTFSource(text=lines_of("Z", case["source"], True), as_table=False)
     kw["rtf_page"] = rtf.RTFPage(page_title=case.get("pt", "all"), page_footnote=case.get("pf", "last"),
                                  page_source=case.get("ps", "last"))
     return rtf.RTFDocument(**kw)
 
 
 def eval_case(case: dict) -> dict:
+    if "hist" in case:
+        return eval_history(case)
     figs = case["figs"]
-    n = len(figs)
     datas = [synth(f) for f in figs]
     paths = [file_for(d, f["sfx"]) for d, f in zip(datas, figs)]
+    try:
+        out = build(case, paths).rtf_encode()
+    except Exception as e:
+        return {"viol": [{"klass": None, "sig": f"encode-raised-{type(e).__name__}", "detail": f"{type(e).__name__}: {e}"[:300]}],
+                "nt": False}
+    return oracle(case, figs, datas, out)
+
+
+_HIST = [0]
+QFIG = {"fmt": "png", "sfx": ".png", "w": 12, "h": 34, "len": [0, 1], "salt": 77}  # the file that is NOT rewritten
+
+
+def eval_history(case: dict) -> dict:
+    """Operation history over ONE path P inside one (long-lived) process: for each version v of case["hist"] in turn
+    write v to P (in place, or via rename), build a NEW document naming P and encode it; after every rewrite also encode
+    the document objects built earlier once more.
+
+    What each output must show (decided from the property text, "each image file is embedded as a picture whose payload
+    decodes to the file's exact bytes ... pixel dimensions read from the image"):
+      * a document built AFTER a rewrite has never been able to see an older version: only the current file content is
+        admissible (payload, blip keyword, \\picw/\\pich all of the current version);
+      * a document built BEFORE the rewrite and encoded again afterwards names a *file*, not bytes; the text does not say
+        whether construction or encoding is the moment of reading, so either the version current at its construction or
+        the version current now is accepted - but coherently (payload and pixel size of one and the same version)."""
+    wd = workdir()
+    _HIST[0] += 1
+    sfx = case["hist"][0]["sfx"]
+    p_path = os.path.join(wd, f"hist_{_HIST[0]}{sfx}")
+    shape = case["shape"]
+    viol, cnt = [], {}
+
+    def absorb(res):
+        for k, v in (res.get("cnt") or {}).items():
+            cnt[k] = cnt.get(k, 0) + v
+
+    docs = []  # (document, index of the version current at construction)
+    try:
+        for step, fig in enumerate(case["hist"]):
+            data = synth(fig)
+            if case.get("how") == "replace" and step:
+                tmp = p_path + ".new"
+                with open(tmp, "wb") as f:
+                    f.write(data)
+                os.replace(tmp, p_path)
+            else:
+                with open(p_path, "wb") as f:
+                    f.write(data)
+
+            def version(i):
+                figs = [case["hist"][i] if x == "P" else QFIG for x in shape]
+                return figs, [synth(f) for f in figs]
+
+            qpath = file_for(synth(QFIG), QFIG["sfx"])
+            paths = [p_path if x == "P" else qpath for x in shape]
+            what = f"history step {step + 1}/{len(case['hist'])} (path P " + ("written" if step == 0 else f"{'replaced' if case.get('how') == 'replace' else 'overwritten in place'}") \
+                   + f" with version {step + 1}: {fig['fmt']} {len(data)} bytes)"
+            try:
+                doc = build(case, paths)
+                out = doc.rtf_encode()
+            except Exception as e:
+                viol.append({"klass": None, "sig": f"encode-raised-{type(e).__name__}", "detail": f"{what}: {type(e).__name__}: {e}"[:300]})
+                break
+            figs, datas = version(step)
+            res = oracle(case, figs, datas, out, label=f"{what}, document built after it: ")
+            absorb(res)
+            if res["viol"] and step:
+                # diagnosis only: is the output exactly what an older version of the file would give?
+                for old in range(step):
+                    ofigs, odatas = version(old)
+                    if not oracle(case, ofigs, odatas, out)["viol"]:
+                        res["viol"] = [{"klass": None, "sig": "rewritten-file-embedded-stale",
+                                        "detail": f"{what}: a document built and encoded AFTER the rewrite embeds version {old + 1} of the file "
+                                                  f"(payload and pixel size of the old content). First oracle message: {res['viol'][0]['detail'][:200]}"}]
+                        break
+            viol.extend(res["viol"])
+            # documents built before this rewrite, encoded again now
+            for di, (odoc, born) in enumerate(docs):
+                try:
+                    out2 = odoc.rtf_encode()
+                except Exception as e:
+                    viol.append({"klass": None, "sig": f"re-encode-raised-{type(e).__name__}", "detail": f"{what}: {type(e).__name__}: {e}"[:300]})
+                    continue
+                now = oracle(case, figs, datas, out2, label=f"{what}, document built at step {born + 1} encoded again: ")
+                if now["viol"]:
+                    ofigs, odatas = version(born)
+                    if oracle(case, ofigs, odatas, out2)["viol"]:
+                        for v in now["viol"]:
+                            v["sig"] = "re-encode-" + v["sig"]
+                        viol.extend(now["viol"])
+                    else:
+                        cnt["re-encode-shows-construction-time-version"] = cnt.get("re-encode-shows-construction-time-version", 0) + 1
+                else:
+                    cnt["re-encode-shows-current-version"] = cnt.get("re-encode-shows-current-version", 0) + 1
+            docs.append((doc, step))
+        cnt["history"] = 1
+        if len(case["hist"]) > 2:
+            cnt["history-back-to-first-version"] = 1
+        a, b = synth(case["hist"][0]), synth(case["hist"][1])
+        if len(a) == len(b):
+            cnt["history-same-length-other-bytes"] = 1
+        if ref_size(case["hist"][0]["fmt"], a) != ref_size(case["hist"][1]["fmt"], b):
+            cnt["history-other-pixel-size"] = 1
+        return {"viol": viol, "nt": True, "cnt": cnt}
+    finally:
+        for q in (p_path, p_path + ".new"):
+            if os.path.exists(q):
+                os.remove(q)
+
+
+def oracle(case: dict, figs: list, datas: list, out: str, label: str = "") -> dict:
+    """The property on one encoded figure document: `figs`/`datas` are the descriptors and the bytes the files hold."""
+    n = len(figs)
     viol = []
     cnt = {}
 
     def bump(k):
         cnt[k] = cnt.get(k, 0) + 1
 
-    try:
-        out = build(case, paths).rtf_encode()
-    except Exception as e:
-        return {"viol": [{"klass": None, "sig": f"encode-raised-{type(e).__name__}", "detail": f"{type(e).__name__}: {e}"[:300]}],
-                "nt": False}
     doc = parse(out)
     if doc.errors:
         viol.append({"klass": None, "sig": "unparseable-" + doc.errors[0][0], "detail": str(doc.errors[:3])})
@@ -176,7 +293,7 @@ def eval_case(case: dict) -> dict:
         roles = [docspec.block_role(b) for b in pg.blocks]
         names = [r for r, _ in roles if r != "blank"]
         summary.append(names)
-        where = f"page {k + 1}/{npages}"
+        where = f"{label}page {k + 1}/{npages}"
         picts = [b for b in pg.blocks if b.kind == "pict"]
         if len(picts) != 1:
             viol.append({"klass": None, "sig": "pictures-per-page", "detail": f"{where}: {len(picts)} pictures, expected exactly one"})
@@ -184,19 +301,30 @@ def eval_case(case: dict) -> dict:
         if other:
             viol.append({"klass": None, "sig": "unidentified-block", "detail": f"{where}: {str(other[:2])[:200]}"})
 
-        # captions on exactly the selected pages
-        def expect(present, what, *rs):
-            c = sum(1 for r in names if r in rs)
-            if present and c != 1:
-                viol.append({"klass": None, "sig": f"{what}-{'missing' if c == 0 else 'repeated'}",
-                             "detail": f"{where}: {what} selected for this page but found {c}x; page has {names}"})
-            if not present and c:
-                viol.append({"klass": None, "sig": f"{what}-unexpected",
-                             "detail": f"{where}: {what} found {c}x on a page its option does not select; page has {names}"})
+        # captions on exactly the selected pages: a selected page carries ALL lines of the component, in order, once;
+        # any other page carries none of them (lines may be rendered as \line inside one paragraph or as paragraphs / rows)
+        def expect(m, option, what, tag, *rs):
+            want = lines_of(tag, m) if m and selected(option, k, npages) else []
+            have = []
+            for b, (r, _) in zip(pg.blocks, roles):
+                if r in rs:
+                    texts = [b.text] if b.kind == "para" else [c.text for c in b.cells]
+                    have += [ln.strip() for t in texts for ln in t.split("\n") if ln.strip()]
+            if have == want:
+                return
+            if not want:
+                sig, msg = f"{what}-unexpected", f"{what} line(s) {have} on a page its option ({option!r}) does not select"
+            elif not have:
+                sig, msg = f"{what}-missing", f"{what} selected for this page ({option!r}) but absent"
+            elif have == want * (len(have) // len(want)) and len(have) > len(want):
+                sig, msg = f"{what}-repeated", f"{what} found {len(have) // len(want)}x: {have}"
+            else:
+                sig, msg = f"{what}-lines", f"{what} selected for this page must show all its lines {want} in order, but the page shows {have}"
+            viol.append({"klass": None, "sig": sig, "detail": f"{where}: {msg}; page has {names}"})
 
-        expect(bool(case.get("title")) and selected(pt, k, npages), "title", "title")
-        expect(bool(case.get("footnote")) and selected(pf, k, npages), "footnote", "footnote_para", "footnote_table")
-        expect(bool(case.get("source")) and selected(ps, k, npages), "source", "source_para", "source_table")
+        expect(case.get("title"), pt, "title", "T", "title")
+        expect(case.get("footnote"), pf, "footnote", "F", "footnote_para", "footnote_table")
+        expect(case.get("source"), ps, "source", "Z", "source_para", "source_table")
         if k >= n or not picts:
             continue
         pic, fig, data = picts[0], figs[k], datas[k]
@@ -252,6 +380,11 @@ def eval_case(case: dict) -> dict:
             bump("size-list-shorter" if len(v) < n else "size-list-longer" if len(v) > n else "size-list-exact")
     if n > 1:
         bump("multi-figure")
+    for key in ("title", "footnote", "source"):
+        if int(case.get(key) or 0) > 1:
+            bump("multi-line-" + key)
+    if n > 1 and int(case.get("title") or 0) == n:
+        bump("title-lines==figures")
     nt = n >= 2 or isinstance(fw, list) or isinstance(fh, list) or any(len(d) % 40 in (39, 0, 1) for d in datas) \
         or any(f.get("app") or f.get("tables") or f.get("fake") for f in figs)
     sample = None
@@ -386,6 +519,43 @@ def ball_cases(anchor_ids, quick: bool):
             yield {**anchor, "figs": cycle_figs(1, a), "paths": form}
 
 
+def caption_line_cases(nmax: int, full: bool):
+    """Multi-line title / subline / footnote / source (1..4 lines each) x 1..nmax figures x placement^3.
+    quick: title x footnote lines full product, source lines and subline lines derived (every value occurs with every
+    figure count and placement); thorough: full product of the three line counts."""
+    for n in range(1, nmax + 1):
+        for (pt, pf, ps), t, f in itertools.product(itertools.product(PLACE, repeat=3), (1, 2, 3, 4), (1, 2, 3, 4)):
+            for z in ((1, 2, 3, 4) if full else ((t + f + n) % 4 + 1,)):
+                yield {"figs": cycle_figs(n, n + 1), "fw": 3, "fh": [3, 5.1], "title": t, "subline": (t + f + z) % 5, "footnote": f,
+                       "source": z, "pt": pt, "pf": pf, "ps": ps}
+
+
+HIST_VERSIONS = {
+    ".png": [{"fmt": "png", "sfx": ".png", "w": 300, "h": 200, "len": [256, 0], "salt": 1},
+             {"fmt": "png", "sfx": ".png", "w": 300, "h": 200, "len": [256, 0], "salt": 2},   # same length, same size, other bytes
+             {"fmt": "png", "sfx": ".png", "w": 70000, "h": 1, "len": [0, 39], "salt": 3},
+             {"fmt": "png", "sfx": ".png", "w": 200, "h": 300, "len": [256, 0], "salt": 1}],  # same length, other size
+    ".jpg": [{"fmt": "jpeg", "sfx": ".jpg", "w": 640, "h": 480, "app": [16], "len": [0, 39], "salt": 1},
+             {"fmt": "jpeg", "sfx": ".jpg", "w": 640, "h": 480, "app": [16], "len": [0, 39], "salt": 2},
+             {"fmt": "jpeg", "sfx": ".jpg", "w": 1, "h": 65535, "app": [2, 300], "sof": 0xC2, "len": [256, 1], "salt": 3},
+             {"fmt": "jpeg", "sfx": ".jpg", "w": 255, "h": 256, "sof": 0xCF, "tables": 1, "len": [0, 0], "salt": 4}],
+    ".emf": [{"fmt": "emf", "sfx": ".emf", "tot": 121, "salt": 1}, {"fmt": "emf", "sfx": ".emf", "tot": 121, "salt": 2},
+             {"fmt": "emf", "sfx": ".emf", "tot": 41, "salt": 3}, {"fmt": "emf", "sfx": ".emf", "tot": 4096, "salt": 4}],
+}
+HIST_SHAPES = [["P"], ["P", "Q"], ["Q", "P"], ["P", "P"]]
+
+
+def history_cases(full: bool):
+    """All version sequences of length 2 and 3 (adjacent versions distinct, so v1 -> v2 -> v1 is included) over 4 versions per
+    suffix family x 4 document shapes x {overwrite in place, replace by rename}."""
+    for sfx, vs in HIST_VERSIONS.items():
+        seqs = [[a, b] for a in range(4) for b in range(4) if a != b]
+        seqs += [[a, b, c] for a in range(4) for b in range(4) for c in range(4) if a != b and b != c and (full or c == a)]
+        for seq, shape, how in itertools.product(seqs, HIST_SHAPES, ("overwrite", "replace")):
+            yield {"hist": [vs[i] for i in seq], "shape": shape, "how": how, "fw": [3, 5.1], "fh": 2.5, "title": 1, "footnote": 1,
+                   "source": 1, "pt": "all", "pf": "last", "ps": "first"}
+
+
 def _selfcheck_reference_readers():
     """The oracle's header readers must agree with Pillow wherever Pillow is willing to open the file."""
     import io
@@ -417,13 +587,21 @@ def plan(run):
                 "byte values, 4 KiB), EMF of exact lengths 25..4096; (B) JPEG structure: DQT/DHT, decoy SOF inside APPn, 0..2 fill bytes; "
                 f"(C) 1..{nmax} figures x every fig_width shape x every fig_height shape (scalar, lists of length 1..n+1, 4 rotations) x 3 alignments; "
                 f"(D) 1..{nmax} figures x placement^3 x title/subline/footnote/source presence; (E) radius-2 ball over 15 dimensions around "
-                f"{'the seed-selected anchor' if quick else 'all 3 anchors'}. non-trivial = >= 2 figures, or a list-valued size, or a file whose "
+                f"{'the seed-selected anchor' if quick else 'all 3 anchors'}; (F) caption lines: 1..{4 if quick else 6} figures x placement^3 x title lines 1..4 x "
+                f"footnote lines 1..4 x source lines {'1..4' if not quick else 'derived (all values occur)'}, subline 0..4 lines; (G) overwrite histories in one process: "
+                "per suffix family 4 file versions (same length other bytes / other pixel size / other structure), all version sequences of length 2 "
+                f"and {'3' if not quick else '3 returning to the first version'} x document shapes [P] [P,Q] [Q,P] [P,P] x overwrite in place / replace by rename; a new "
+                "document is built and encoded after every rewrite and every earlier document is encoded again. non-trivial = >= 2 figures, or a list-valued size, or a file whose "
                 "length is 39/0/1 mod 40, or a JPEG with segments in front of the frame header; distinct = distinct case")
     run.assumptions = [
         "the RTF reader's \\pict decoding and the PNG/JPEG header readers in mc/spec/figures.py are correct (cross-checked against Pillow at start)",
         "image files are synthetic: valid headers, arbitrary body bytes; EMF carries no pixel size, so \\picw/\\pich are not checked for EMF",
         "display size tolerance |goal - inches*1440| < 1 twip (truncation and rounding both accepted)",
         "subline placement, component order within a page and page-break geometry are C06's business and not demanded here",
+        "multi-line components: a selected page must show all lines of the component in order exactly once, however they are rendered (\\line, paragraphs, rows)",
+        "histories: a document built after a file was rewritten must embed the current content; a document built before and encoded again may show "
+        "either the content current at its construction or the current one, coherently (payload, keyword and pixel size of one version). Worker "
+        "processes are long-lived and no rtflite cache is ever cleared between cases; every history uses a fresh path",
     ]
     for msg in _selfcheck_reference_readers():
         run.harness_errors.append({"layer": "reference-readers", "case": None, "error": msg})
@@ -436,6 +614,10 @@ def plan(run):
         run.layer("size-lists", "mc.props.c16:eval_case", cases, chunk=60, total=len(cases))
         cases = list(placement_cases(nmax))
         run.layer("placement-product", "mc.props.c16:eval_case", cases, chunk=60, total=len(cases))
+        cases = list(caption_line_cases(4 if quick else 6, not quick))
+        run.layer("caption-lines", "mc.props.c16:eval_case", cases, chunk=60, total=len(cases))
+        cases = list(history_cases(not quick))
+        run.layer("overwrite-histories", "mc.props.c16:eval_case", cases, chunk=24, total=len(cases))
         anchors = [run.seed % 3] if quick else [0, 1, 2]
         cases = list(ball_cases(anchors, quick))
         run.layer("ball-r2", "mc.props.c16:eval_case", cases, chunk=40, total=len(cases))
@@ -444,6 +626,7 @@ def plan(run):
             shutil.rmtree(d, ignore_errors=True)
     for need in ("len%40=39", "len%40=0", "len%40=1", "all-byte-values", "png-dim>65535", "jpeg-app-segments", "non-square",
                  "fmt=png", "fmt=jpeg", "fmt=emf", "suffix-uppercase", "size-list-shorter", "size-list-longer", "size-list-exact",
-                 "multi-figure"):
+                 "multi-figure", "multi-line-title", "multi-line-footnote", "multi-line-source", "title-lines==figures",
+                 "history", "history-back-to-first-version", "history-same-length-other-bytes", "history-other-pixel-size"):
         if not run.cnt.get(need):
             run.harness_errors.append({"layer": "vacuity", "case": None, "error": f"counter {need} is zero"})
